@@ -27,7 +27,7 @@ def run(replay=None):
         if False else (0, "", "")
     import subprocess
     p = subprocess.run([os.path.join(common.BUILD, "cxx", "bin", "fpenv"), "1" if quick else "0"],
-                       stdout=subprocess.PIPE, stderr=subprocess.PIPE, text=True, timeout=2400)
+                       stdout=subprocess.PIPE, stderr=subprocess.PIPE, text=True, errors="replace", timeout=2400)
     total = bad = 0
     sites = {}
     for l in p.stdout.splitlines():
